@@ -125,7 +125,10 @@ var invalidTable = []invalidEntry{
 	{Name: "debug-verbosity", Kinds: []string{"exporters/debug"}, W: []Write{w("verbosity", vText("none"))}, Tokens: []string{"verbosity"}},
 	// telemetry.Config.Validate (the service section)
 	{Name: "telemetry-no-readers", Kinds: []string{"service/service"}, At: "telemetry", W: []Write{w("metrics::level", vText("basic")), w("metrics::readers", Val{K: "strs", L: []string{}})}, Tokens: []string{"reader"}},
-	{Name: "telemetry-views-level", Kinds: []string{"service/service"}, At: "telemetry", W: []Write{w("metrics::level", vText("normal")), w("metrics::views", Val{K: "strs", L: []string{}})}, Tokens: []string{"views"}},
+	// Alone: telemetry.Config.Validate reports its FIRST failing rule; a base that wrote `readers: []` (+ level none)
+	// would, once the entry overrides the level, be rejected for its missing readers first — a rejection that names an
+	// entry really at fault, but not this rule's.  The entry therefore owns every operand of the method (readers = default).
+	{Name: "telemetry-views-level", Kinds: []string{"service/service"}, At: "telemetry", Alone: true, W: []Write{w("metrics::level", vText("normal")), w("metrics::views", Val{K: "strs", L: []string{}})}, Tokens: []string{"views"}},
 }
 
 // Rules whose verdict depends on the DEFAULT of an unwritten sibling: the single written key (or the absence of a
